@@ -145,6 +145,12 @@ def check(run, prog, tier):
         for _cq in ("sd.ServiceSubscriber", "sd.ServiceInstance"):
             lifecycle_owner(run, prog, _sc, "S9", _cq)
 
+    # ------------------------------------------------------------------ S10 what is requested stays requested
+    # (a watcher that forgets its request because of something the peer sent - a Nack, a StopOffer - is running, sees the
+    # service offered again as a mere refresh, and never subscribes again)
+    from .C14 import requested_set_callers
+    requested_set_callers(run, prog, _sc, "S10")
+
     # ------------------------------------------------------------------ S7 start / stop of the stack reach every component
     e7 = engine(prog, NoInline())
     for mname, want in (("start", "start"), ("stop", "stop")):
